@@ -12,7 +12,7 @@ import json
 import os
 
 import vlib
-from families import common
+from families import cfiles_util, common
 
 SOURCES = ["drv_loadfuzz.c", "vt.c", "vt_alloc.c"]
 TRACE = ("LoadContractTrace.tla", "LoadContractTrace.cfg")
@@ -97,7 +97,9 @@ def _attribute_leak(ctx, rerun, case, window, label):
     open(tp, "w").close()
     env = dict(_env(ctx), CF_LSAN_PERIOD="1")
     crashes = common.run_cases(rerun["exe"], rerun["mkargs"], lo, hi, tp,
-                               _case_index, max_crashes=window + 2, env=env)
+                               _case_index, max_crashes=window + 2, env=env,
+                               timeout=cfiles_util.WALL_LIMIT)
+    crashes = cfiles_util.split_timeouts(ctx, crashes, label)
     common.strip_crashed_episodes(tp)
     res = vlib.validate_sharded(TRACE[0], TRACE[1], tp, ctx.work, shards=1)
     ctx.machinery_errors += res["errors"]
@@ -185,8 +187,6 @@ def issues_from_crashes(ctx, crashes, label):
         if s is None:
             s = ("exit%d" % c["rc"], "?")
         sig = "LoadContract:crash:%s:%s" % s
-        if c["rc"] == -9:
-            sig = "LoadContract:driver-timeout"
         rp = ctx.save_replay("loadfuzz-crash-%s.txt" % common.sig_hash(sig),
                              "case %s\nrc %s\n%s" % (c["case"], c["rc"],
                                                      c["stderr"]))
@@ -269,12 +269,13 @@ def _thin_out(tr, stats, keep=3):
 
 
 def _run_mode(ctx, exe, label, name, mkargs, total, stats, issues, nshards=None,
-              timeout=1800):
-    paths, crashes = common.run_sharded(exe, mkargs, total, ctx.work, name,
-                                        _case_index, nshards=nshards,
-                                        timeout=timeout,
-                                        env=dict(_env(ctx),
-                                                 CF_LSAN_PERIOD=str(LSAN_PERIOD)))
+              per_shard=2000):
+    paths, crashes = cfiles_util.run_rounds(
+        exe, mkargs, total, ctx.work, name, _case_index, per_shard,
+        env=dict(_env(ctx), CF_LSAN_PERIOD=str(LSAN_PERIOD)), nshards=nshards)
+    # only the driver's CPU-time watchdog (a Load event with hang = 1) can
+    # say "hang"; a process over its wall-clock limit is a machinery error
+    crashes = cfiles_util.split_timeouts(ctx, crashes, label)
     issues += issues_from_crashes(ctx, crashes, label)
     stats["crashes"] += len([c for c in crashes if c["rc"] not in QUIET_RC
                              and not (c["rc"] == 3 and "live-block set full" in c["stderr"])])
@@ -349,7 +350,9 @@ def replay(ctx, exe, path):
     tp = os.path.join(ctx.work, "replay.ndjson")
     open(tp, "w").close()
     crashes = common.run_cases(exe, lambda a, b: args, 0, 1, tp, lambda c: 0,
-                               max_crashes=1, env=_env(ctx))
+                               max_crashes=1, env=_env(ctx),
+                               timeout=cfiles_util.WALL_LIMIT)
+    crashes = cfiles_util.split_timeouts(ctx, crashes, "replay")
     issues = issues_from_crashes(ctx, crashes, "replay")
     if not [c for c in crashes if c["rc"] not in QUIET_RC]:
         res = vlib.validate_sharded(TRACE[0], TRACE[1], tp, ctx.work, shards=1)
